@@ -71,19 +71,49 @@ def build(ctx=None):
     return exe
 
 
-def run_harness(seed, rounds, permille):
+TAG = "c19_%d" % os.getpid()          # names of the files this process writes under .cache/cases
+LOAD_SENSITIVE = ("stuck", "notify-count", "hang")   # verdicts that rest on a bounded wait: confirmed by an isolated re-run
+RERUNS = {"harness_reruns_in_isolation": 0, "coq_reruns_in_isolation": 0, "race_reruns_in_isolation": 0}
+
+
+def run_harness(seed, rounds, permille, slow=1):
+    """one run of the stress client.  A wall-clock expiry (rc 124) or the client's own no-progress watchdog (rc 3) is not a
+    verdict: the same run is repeated ONCE, alone, with every bound x10 (C19_SLOW); only what that run shows is reported."""
     exe = build()
-    r = common.run([exe, str(seed), str(rounds), str(permille)], timeout=300)
+    env = dict(os.environ)
+    if slow > 1:
+        env["C19_SLOW"] = str(slow)
+    r = common.run([exe, str(seed), str(rounds), str(permille)], timeout=300 * slow, env=env)
+    if r.returncode in (3, 124) and slow == 1:
+        RERUNS["harness_reruns_in_isolation"] += 1
+        return run_harness(seed, rounds, permille, slow=10)
     return r.returncode, r.stdout, r.stderr
 
 
-def run_race(iters):
-    """regression for the finding fixed in /repo (dbpd_queue published before the queue was retained)"""
+def run_race(iters, slow=1):
+    """regression for the finding fixed in /repo (dbpd_queue published before the queue was retained): iteration-bounded,
+    its watchdog is progress-based (rc 3 = no hand-off completed for 60 s); rc 124 / 3 are confirmed by one isolated re-run
+    with a 10x limit before they count"""
     exe, msg = common.build_harness("c19_qref_race", ["c19_qref_race.c"], whitebox=False)
     if exe is None:
         raise RuntimeError("harness build failed: " + msg)
-    r = common.run([exe, str(iters)], timeout=150)
+    r = common.run([exe, str(iters)], timeout=600 * slow)
+    if r.returncode in (3, 124) and slow == 1:
+        RERUNS["race_reruns_in_isolation"] += 1
+        return run_race(iters, slow=10)
     return r.returncode, r.stdout[-300:], r.stderr[-300:]
+
+
+def coq_eval_checked(name, imports, body, timeout=900):
+    """driver.coq_eval with a per-process file name; a wall-clock expiry is re-run once with a 10x limit; anything else that
+    is not a clean evaluation raises (the caller turns it into a mismatch: a broken tie, never a silent pass)"""
+    ok, vals, raw = driver.coq_eval("%s_%s" % (TAG, name), imports, body, timeout=timeout)
+    if not ok and "TIMEOUT" in raw:
+        RERUNS["coq_reruns_in_isolation"] += 1
+        ok, vals, raw = driver.coq_eval("%s_%s_alone" % (TAG, name), imports, body, timeout=timeout * 10)
+    if not ok:
+        raise RuntimeError("coq evaluation %s failed: %s" % (name, raw[-1500:]))
+    return vals, raw
 
 
 def parse_rounds(other):
